@@ -39,3 +39,58 @@ Theorem C10_rearm_refuted :
   let arm now := Some (now + 100000000) in
   fold_left (fun (_ : option Z) now => arm now) [60000000; 120000000; 180000000] (arm 0) = Some 280000000.
 Proof. reflexivity. Qed.
+
+(** ---- removal. RemoveToxic on a timeout toxic interrupts its stage and runs Cleanup, which
+    closes the stub ([CInterrupt i] then [CSever i] of Model/Reconf.v; that Cleanup runs before any
+    flush is a regenerated ordering fact, see C10_cleanup_before_flush). From any live state of
+    the stage: the removal itself delivers nothing, the consumer of the stub sees end-of-stream
+    (the next stage, or the writer, which closes the connection), and the stub is from then on a
+    wall: on every later schedule it is still dead ... *)
+From TP Require Import Model.Reconf Proofs.WallProofs.
+
+Theorem C10_removal_closes : forall l i s acc tmr,
+  nth_error (l_stubs l) i = Some s -> s_st s = Idle acc tmr -> s_closed s = false ->
+  exists l1 l2,
+    ctl_step l (CInterrupt i) = Some l1 /\ ctl_step l1 (CSever i) = Some l2 /\
+    wall l2 i /\ sink_bytes l2 = sink_bytes l /\
+    match nth_error (l_stubs l2) (S i) with
+    | Some t => s_in_closed t = true
+    | None => l_sink_closed l2 <> None
+    end /\
+    (forall sigma l3, sched_run l2 sigma = Some l3 -> wall l3 i).
+Proof. exact timeout_removal. Qed.
+
+(** ... and a dead stub never acts again: neither its send, its timers, nor a flush, restart,
+    splice or second removal aimed at it is enabled. Since the hand-offs to position i+1 are
+    exactly stub i's send and the flush of stub i, nothing that is upstream of the removed toxic
+    - parked in an earlier stage, in its input buffer, or still to be sent - is ever delivered:
+    the stream is not resumed with a hole in it. *)
+Theorem C10_wall_is_silent : forall l i, wall l i ->
+  sched_step l (AMove i) = None /\ sched_step l (ATimer i) = None /\ sched_step l (ASendTimeout i) = None.
+Proof. exact wall_silent_data. Qed.
+
+Theorem C10_wall_is_silent_ctl : forall l i, wall l i ->
+  ctl_step l (CInterrupt i) = None /\ (forall tx eff, ctl_step l (CRestart i tx eff) = None) /\
+  ctl_step l (CForward i) = None /\ ctl_step l (CForwardDrop i) = None /\
+  ctl_step l (CDelete i) = None /\ ctl_step l (CSever i) = None.
+Proof. exact wall_silent_ctl. Qed.
+
+(** permanence under later reconfiguration as well (a splice upstream shifts the index) *)
+Theorem C10_wall_stays_under_reconfiguration : forall l a l' i, ctl_step l a = Some l' -> wall l i ->
+  match a with
+  | CDelete j => if (j <? i)%nat then wall l' (i - 1) else wall l' i
+  | _ => wall l' i
+  end.
+Proof. exact wall_ctl. Qed.
+
+(** the timeout stage is interruptible in every live state (it never sits in a send) *)
+Theorem C10_interruptible : forall now acc tmr,
+  mode_of (Idle acc tmr) = MSelect true true tmr /\ on_interrupt now (Idle acc tmr) = Exited.
+Proof. intros. split; reflexivity. Qed.
+
+(** regenerated from link.go on every run: in RemoveToxic the Cleanup call, and the return taken
+    when it closed the stub, come before the first WriteOutput and before the goroutine that
+    interrupts the previous stub - the order [CInterrupt i; CSever i] above, with no [CForward]
+    in between *)
+Theorem C10_cleanup_before_flush : remove_cleanup_before_flush = true.
+Proof. reflexivity. Qed.
